@@ -131,9 +131,10 @@ def zoo():
         # the stored value of k (10, 10) is NOT trigger_fun(x0): every function that uses k must fire the trigger
         m = Model()
         m.x = Var("x", [0.5, 1.5])
-        m.k = Param("k", [10.0, 10.0], triggerable=True, trigger_var=["x"], trigger_fun=trig_sq)
+        # same parameter NAME as in ae_trigger, another trigger function: models living in one process must not share it
+        m.g = Param("g", [10.0, 10.0], triggerable=True, trigger_var=["x"], trigger_fun=trig_sq)
         m.b = Param("b", [0.3, 0.6])
-        m.e1 = Eqn("e1", m.k * m.x ** 2 - m.b)
+        m.e1 = Eqn("e1", m.g * m.x ** 2 - m.b)
         return m, "AE"
 
     return dict(ae_trigger_smooth=ae_trigger_smooth, ae_basic=ae_basic, ae_slices=ae_slices, ae_piecewise=ae_piecewise, dae_ts=dae_ts,
